@@ -29,7 +29,7 @@ func TestMain(m *testing.M) {
 		os.Exit(m.Run())
 	}
 	vcore.Init("C18", "exploration",
-		"full stack (real PfcpServer + real Gtp5g driver + periodic server + netlink listener + simulated kernel) driven by scripts with drawn load parameters: sessions 1..1000, periodic URRs per session 0..4 over 1..3 periods, kernel latency 0..200 us, bursts of 0..600 buffer notifications "+
+		"full stack (real PfcpServer + real Gtp5g driver + periodic server + netlink listener + simulated kernel) driven by scripts with drawn load parameters: sessions 1..1000, periodic URRs per session 0..4 over 1..3 periods, kernel latency 0..200 us, bursts of 0..600 buffer notifications (spread over the sessions, or all for one session and PDR so that its packet queue of 512 overflows) "+
 			"placed before / during / after rule changes, ticks placed before / inside / after a bulk removal (re-association of the node or mass deletion); generator biased towards the capacity products named in the quantifier (timer events posted during one bulk removal around 512, sessions reported per tick around 128, notifications in flight around 128). "+
 			"One script in three is a wall-clock schedule with real tickers instead (2..5 sessions over measurement periods of 1..3 s, staggered establishment, deletions at drawn offsets, usage queries of the periodic server slowed to 0..700 ms), built around 'a group's own tick is queued behind the removal of its last URR while another group's query is in progress'. "+
 			"Each script runs in its own subprocess (a wedged UPF cannot be torn down). Oracle: after the script a Heartbeat must be answered; a violation is reported only with a deadlock certificate: after 10 s without answer a goroutine dump is taken and the wait-for graph over the UPF's long-lived goroutines "+
@@ -47,11 +47,12 @@ type Script struct {
 	URRs      int    `json:"urrs"`    // periodic URRs per session
 	Periods   int    `json:"periods"` // 1..3
 	LatencyUs int    `json:"latency_us"`
-	Burst     int    `json:"burst"`    // buffer notifications
-	BurstAt   string `json:"burst_at"` // none | mods | bulk | idle
-	Tick      string `json:"tick"`     // none | before | inside | after
-	Bulk      string `json:"bulk"`     // none | reassoc | massdel
-	Mods      int    `json:"mods"`     // rule-changing modifications issued while the burst arrives
+	Burst     int    `json:"burst"`               // buffer notifications
+	BurstAt   string `json:"burst_at"`            // none | mods | bulk | idle
+	Tick      string `json:"tick"`                // none | before | inside | after
+	Bulk      string `json:"bulk"`                // none | reassoc | massdel
+	Mods      int    `json:"mods"`                // rule-changing modifications issued while the burst arrives
+	BurstOne  bool   `json:"burst_one,omitempty"` // all buffer notifications for one session and PDR (its packet queue holds 512)
 	// Real, when non-empty, replaces the injected ticks by a wall-clock schedule with real tickers (periods of 1..3 s)
 	Real []RealEv `json:"real,omitempty"`
 }
@@ -162,6 +163,9 @@ func analyse(dump string) (cycle string, states []string) {
 				add(g.role, "perio")
 			case has("perio.(*PERIOGroup).stopTicker"):
 				add(g.role, "ticker")
+			case g.role == "loop" && g.state == "chan send" && has("pfcp.(*Sess).Push"):
+				// a session's packet queue is filled and emptied by the event loop alone
+				add("loop", "loop")
 			}
 		case "chan receive":
 			if has("go-nl.(*Client).Do") {
@@ -357,6 +361,9 @@ func runScript(s Script) (res Result) {
 	burst := func(n int) {
 		for i := 0; i < n; i++ {
 			seid := r.Sess[i%len(r.Sess)].UP
+			if s.BurstOne {
+				seid = r.Sess[0].UP
+			}
 			_ = f.D.K.SendBuffer(seid, 1, 0x0c, []byte(fmt.Sprintf("pkt-%d", i)))
 		}
 	}
@@ -663,6 +670,7 @@ func fixed() []Script {
 		{Name: "burst-below-capacity-during-mods", Sessions: 10, URRs: 0, Periods: 1, Burst: 100, BurstAt: "mods", Mods: 20, LatencyUs: 100, Tick: "none", Bulk: "none"},
 		{Name: "massdel-with-tick", Sessions: 200, URRs: 2, Periods: 1, Tick: "inside", Bulk: "massdel"},
 		{Name: "burst-idle-600", Sessions: 5, URRs: 1, Periods: 1, Burst: 600, BurstAt: "idle", Tick: "after", Bulk: "none"},
+		{Name: "burst-600-for-one-pdr", Sessions: 3, URRs: 0, Periods: 1, Burst: 600, BurstAt: "idle", BurstOne: true, Tick: "none", Bulk: "none"},
 		{Name: "real-tick-queued-behind-last-removal", Real: []RealEv{{AtMs: 0, Kind: "est", Period: 1}, {AtMs: 200, Kind: "est", Period: 2}, {AtMs: 900, Kind: "slow", SlowMs: 500},
 			{AtMs: 2100, Kind: "del", Sess: 1}, {AtMs: 2800, Kind: "del", Sess: 0}, {AtMs: 3000, Kind: "slow", SlowMs: 0}}},
 	}
@@ -716,7 +724,8 @@ func gen(t *rapid.T) Script {
 		URRs:      rapid.IntRange(0, 4).Draw(t, "urrs"),
 		Periods:   rapid.IntRange(1, 3).Draw(t, "periods"),
 		LatencyUs: rapid.SampledFrom([]int{0, 0, 20, 100, 200}).Draw(t, "latency"),
-		Burst:     rapid.SampledFrom([]int{0, 0, 30, 100, 127, 129, 300, 600}).Draw(t, "burst"),
+		Burst:     rapid.SampledFrom([]int{0, 0, 30, 100, 127, 129, 300, 513, 600}).Draw(t, "burst"),
+		BurstOne:  rapid.IntRange(0, 2).Draw(t, "burst_one") == 0,
 		BurstAt:   rapid.SampledFrom([]string{"none", "mods", "bulk", "idle"}).Draw(t, "burstat"),
 		Tick:      rapid.SampledFrom([]string{"none", "before", "inside", "inside", "after"}).Draw(t, "tick"),
 		Bulk:      rapid.SampledFrom([]string{"none", "reassoc", "reassoc", "massdel"}).Draw(t, "bulk"),
